@@ -110,15 +110,28 @@ def shard(binpath, seed, sh, plans, tz=None):
             node = pipeline.make_node(rng, W, 0, ["ed0"], expires=text)
         else:
             node = pipeline.make_node(rng, W, 1, ["ed0"], nsteps=2, delegate_prob=1.0)
-            child = node["steps"][rng.randrange(2)]["evidence"][0]["node"]
+            j = rng.randrange(2)
+            child = node["steps"][j]["evidence"][0]["node"]
             child["layout"]["expires"] = text
             node["_swept"] = child
+            if level == "sub_surplus":
+                # the delegated step has a second authorised functionary who supplies a perfectly good plain link: there is
+                # enough evidence without the sub-layout, whose expiry must be fatal all the same
+                st = node["steps"][j]
+                k2 = rng.choice([k for k in ["ed4", "ed5", "ed6", "edp2", "ec-b"] if k != st["evidence"][0]["key"]])
+                if k2 not in st["auth"]:
+                    st["auth"].append(k2)
+                    node["layout"]["steps"][j]["pubkeys"].append(W.kid(k2))
+                node["layout"]["keys"][W.kid(k2)] = W.pub(k2)
+                st["evidence"].append({"key": k2, "kind": "link", "doc": pipeline.leaf_link(st["name"], j), "signers": [k2]})
         pipeline.collect_requests(node, reqs)
         trees.append((node, level, T, delta, offset, frac, style, text))
     wires = scen.sign_all(binpath, reqs, nproc=1)
     cases = []
     for node, level, T, delta, offset, frac, style, text in trees:
         target = node if level == "top" else node["_swept"]
+        level = "sub" if level == "sub_surplus" else level
+        surplus = "_swept" in node and any(len(st_["evidence"]) > 1 for st_ in node["steps"])
         w = copy.deepcopy(wires[target["req"]])
         if T is not None:
             frac_ns = int(round(float("0" + frac) * 1e9)) if frac else 0
@@ -130,7 +143,7 @@ def shard(binpath, seed, sh, plans, tz=None):
         wires[target["req"]] = w
         files = pipeline.tree_files(W, node, wires)
         ncls = ("Z" if offset is None else ("zero-offset" if offset in ("+00:00", "-00:00") else "offset"))
-        meta = {"level": level, "text": text, "instant_ns": str(instant_ns), "notation_class": ncls,
+        meta = {"level": level, "surplus": surplus, "text": text, "instant_ns": str(instant_ns), "notation_class": ncls,
                 "frac": bool(frac), "style": style,
                 "delta_s": delta if isinstance(delta, str) else round(delta, 1)}
         # the caller may ask for the summary under a name: that has nothing to do with the expiry check
@@ -153,6 +166,8 @@ def shard(binpath, seed, sh, plans, tz=None):
         if m["frac"]:
             cls += [f"fractional:{x}" for x in out]
         cls += [f"summary_name_{m['summary_name']}:{x}" for x in out]
+        if m.get("surplus"):
+            cls += [f"sub_layout_next_to_other_evidence:{x}" for x in out]
         if m["style"] != "T_Z":
             cls += [f"style:{m['style']}:{x}" for x in out]
         if "unexpired_rejected" in out:
@@ -240,7 +255,7 @@ def main(ctx):
             plans.append((level, d, None, "", "T_Z"))
     n_rand = 400 if not ctx.thorough else 25000
     for _ in range(n_rand):
-        plans.append((rng.choice(["top", "top", "sub"]), rng.choice(DELTAS + NEAR + NEAR), rng.choice(OFFSETS + [None] * 20),
+        plans.append((rng.choice(["top", "top", "sub", "sub_surplus"]), rng.choice(DELTAS + NEAR + NEAR), rng.choice(OFFSETS + [None] * 20),
                       rng.choice(FRACS), rng.choice(STYLES)))
     rng.shuffle(plans)
     n = common.NPROC
@@ -260,7 +275,7 @@ def main(ctx):
     req = ["top:expired", "top:unexpired_ok", "sub:expired", "sub:unexpired_ok", "notation:offset:expired",
            "notation:offset:unexpired_ok", "notation:zero-offset:expired", "notation:Z:expired", "notation:Z:unexpired_ok",
            "fractional:expired", "fractional:unexpired_ok", "history:after:bad_signature:expired", "history:after:success:expired",
-           "history:after:expired_long_ago:expired", "summary_name_given:expired", "summary_name_given:unexpired_ok", "process_time_zone:west_of_utc:expired", "process_time_zone:west_of_utc:unexpired_ok",
+           "history:after:expired_long_ago:expired", "sub_layout_next_to_other_evidence:expired", "sub_layout_next_to_other_evidence:unexpired_ok", "summary_name_given:expired", "summary_name_given:unexpired_ok", "process_time_zone:west_of_utc:expired", "process_time_zone:west_of_utc:unexpired_ok",
            "process_time_zone:east_of_utc:expired", "process_time_zone:east_of_utc:unexpired_ok"]
     return common.finish(
         PROP, ctx.tier, ctx.seed, res, t0=ctx.t0,
